@@ -23,6 +23,7 @@ Invariants, evaluated on everything reachable from the collection, in every stat
   M3 the tree (names and identities) is the model's: deleted members are gone, moved ones are where they were put
   M4 every resolved alias is listed among its target's aliases under its current path
   M5 aliases that reached a member replaced through set_member reach the replacement
+  M7 an alias that left the tree through a deletion (alone or inside what was deleted) is not listed by any object of the tree, until it is put back
 """
 from __future__ import annotations
 
@@ -32,8 +33,8 @@ from pathlib import Path
 from mc.core import boot, sandbox
 
 KEYFORMS = ("name", "dotted", "tuple")
-MOVABLE = ("F", "C", "A", "S", "B")
-DESTS = {"F": ("M", "N"), "C": ("M", "N"), "A": ("C", "M"), "S": ("M", "N", "TOP"), "B": ("S", "N")}
+MOVABLE = ("F", "C", "A", "S", "B", "K")
+DESTS = {"F": ("M", "N"), "C": ("M", "N"), "A": ("C", "M"), "S": ("M", "N", "TOP"), "B": ("S", "N"), "K": ("M", "N")}
 NAMES = {"M": "m", "N": "n", "F": "f", "C": "C", "G": "g", "A": "a", "S": "sub", "H": "h", "B": "b", "T": "sub", "TB": "b",
          "F2": "f", "K": "K", "KA": "a2", "SA": "sub", "S2": "sub", "S3": "sub", "S3B": "b", "H2": "h2", "AC": "ac", "D": "D", "Z": "z"}
 ALIASES = ("A", "B", "TB", "KA", "SA", "S3B", "AC")
@@ -107,6 +108,7 @@ class World:
         self.target: dict[str, object] = {}  # alias label -> target label | None
         self.variant = None
         self.gone: set[str] = set()  # labels that can never come back (merged away / displaced fresh objects)
+        self.deleted_aliases: set[str] = set()  # aliases that left the tree through a deletion (alone or inside what was deleted) and were not put back since
 
     def container_obj(self, label):
         return self.coll if label == "TOP" else self.objs[label]
@@ -235,8 +237,11 @@ def apply(w: World, op):
             return None, None, False, []
         exc = _call((lambda: recv.del_member(key)) if api == "del_member" else (lambda: recv.__delitem__(key)))
         # model
+        was_in_tree = path is not None
         del w.members[cont][name]
         w.where[x] = None
+        if was_in_tree:
+            w.deleted_aliases |= _aliases_under(w, x)
         return _outcome(exc), "ok", True, viols
     if kind == "put":
         _, x, d, api, kf = op
@@ -278,6 +283,7 @@ def apply(w: World, op):
                     elif t == occupant and w.objs[a]._target is value:
                         w.target[a] = x  # a detached alias is gone: nothing is promised about it, following is fine too
         w.m_put(x, d)
+        w.deleted_aliases -= _aliases_under(w, x)
         return _outcome(exc), "ok", True, viols
     if kind == "touch":
         a = op[1]
@@ -333,6 +339,7 @@ def apply(w: World, op):
             return None, None, False, []
         w.new("SA", "alias", target="n")
         exc = _call(lambda: w.objs["M"].set_member("sub", w.objs["SA"]))
+        w.deleted_aliases |= _aliases_under(w, "S")
         w.where["S"] = None
         w.gone.add("S")  # (what became of the displaced module is not followed further)
         w.m_put("SA", "M")
@@ -408,10 +415,21 @@ def apply(w: World, op):
         if not had_b:
             w.members["S"]["b"] = "S3B"
             w.where["S3B"] = "S"
+        else:
+            w.deleted_aliases.add("S3B")  # left behind in the stubs module that goes away
         w.where["S3"] = None
         w.gone.add("S3")
         return _outcome(exc), "ok", True, viols
     raise AssertionError(op)
+
+
+def _aliases_under(w, label):
+    if label in w.target:
+        return {label}
+    out = set()
+    for sub in w.members.get(label, {}).values():
+        out |= _aliases_under(w, sub)
+    return out
 
 
 def _follow_check(w, a, new_label, tag):
@@ -492,6 +510,15 @@ def check_state(w: World):
                 walk(lab, o, path + ".")
 
     walk("TOP", coll, "")
+    # M7 ("deleted members are gone"): an alias that left the tree through a deletion is not listed by any object of the tree any more
+    for lab in w.deleted_aliases:
+        al = w.objs[lab]
+        for olab, o in w.objs.items():
+            if olab in w.target or getattr(o, "is_alias", False) or w.m_path(olab) is None:
+                continue
+            keys = sorted(k for k, v in o.aliases.items() if v is al)
+            if keys:
+                out.append(("M7-deleted-alias-listed", f"{lab}@{olab}", f"the deleted alias {lab} is still listed by {w.m_path(olab)} (under {keys})"))
     return out
 
 
@@ -527,7 +554,7 @@ def canon(w: World):
             al.append((lab, _lab(w, o._target), _lab(w, o._parent)))
         else:
             al.append((lab, tuple(sorted((k, _lab(w, v)) for k, v in o.aliases.items())), _lab(w, o.parent)))
-    return (w.variant, tuple(tree), tuple(detached), tuple(al), tuple(sorted(w.gone)))
+    return (w.variant, tuple(tree), tuple(detached), tuple(al), tuple(sorted(w.gone)), tuple(sorted(w.deleted_aliases)))
 
 
 def _digest(c) -> bytes:
